@@ -274,7 +274,7 @@ func stateVariants(c *chain.Chain, spec *common.Spec, s *chain.Step, fs *flat.St
 			break
 		}
 	}
-	if atts := *s.Block.Body().Attestations; fs.Fork == "phase0" && len(atts) > 0 && rng.Intn(3) == 0 {
+	if atts := *s.Block.Body().Attestations; fs.Fork == "phase0" && len(atts) > 0 && uint64(s.Slot)%2 == 0 {
 		// both pending-attestation lists filled up to a (small) limit MAX_ATTESTATIONS * SLOTS_PER_EPOCH: the block's
 		// first attestation no longer fits
 		spe := uint64(spec.SLOTS_PER_EPOCH)
@@ -320,7 +320,7 @@ func stateVariants(c *chain.Chain, spec *common.Spec, s *chain.Step, fs *flat.St
 			}
 		}
 	}
-	if flat.ForkIndex(fs.Fork) >= 3 && rng.Intn(2) == 0 {
+	if flat.ForkIndex(fs.Fork) >= 3 && uint64(s.Slot)%3 == 0 {
 		g := *fs
 		g.NextWithdrawalValIdx = uint64(len(fs.Validators)) + uint64(rng.Intn(3))
 		out = append(out, stateVariant{"pre-state:withdrawal-cursor-out-of-registry", "withdrawals.validator_index", &g, nil})
